@@ -474,7 +474,7 @@ func (c *Ctx) labelCoversAllKeys() {
 				if iff := lastIf(b); iff != nil && inLoop(b) {
 					if bo, ok := iff.Cond.(*ssa.BinOp); ok && bo.Op == token.LSS && bo.X == v {
 						if c3 := callOf(bo.Y); c3 != nil {
-							if bi, ok := c3.Call.Value.(*ssa.Builtin); ok && bi.Name() == "len" && strings.Join(leaves(c3.Call.Args[0]), ",") == "keys" {
+							if bi, ok := c3.Call.Value.(*ssa.Builtin); ok && bi.Name() == "len" && strings.Join(leaves(c3.Call.Args[0]), ",") == "#2" {
 								bound = true
 							}
 						}
